@@ -1,6 +1,9 @@
 //! C12 correspondence: compiled functions under concurrent use.
 //!
-//! `c12 run <seed> <tier> [--repo <path>] [--fn-bounds "<w w w;w w …>"]`
+//! `c12 run <seed> <tier> [--repo <path>] [--fn-bounds "<w w w;w w …>"] [--focus c1,c2]`
+//!   0. share cases (`../c12/share.rs`, one worker process per case): lists,
+//!      registered closures / constants and `into_func` closures shared
+//!      between threads through the safe API (`--focus` restricts the classes).
 //!   1. rustc probe: three tiny programs built against the repository under
 //!      test (in `target/c12-probe`): a `move` closure capturing a `Cell`
 //!      (must be rejected; if it builds it is run: 4 × 100 000 increments
@@ -16,8 +19,16 @@
 //!      packages and the main thread drops the package and the runtime. Every
 //!      result must equal the single-threaded one; the drop-tracked token
 //!      count must return to its baseline; the atomic tick count is exact.
-//! `c12 replay <json>` re-runs one case (`{"kind":"stress","seed":..,"index":..,"tier":..}`
-//!   or `{"kind":"probe"}`); `c12 dump <source>` prints the LIR dump.
+//!      A fourth probe moves an `into_func` closure to another thread, drops
+//!      package and runtime and calls it there (must build and be right).
+//! `c12 share <seed> <tier> [--focus c1,c2] [--budget-s N]` search mode: only the
+//!   share classes, new indices and escalating attempts (rounds x 4^k, k <= 2)
+//!   until a violation is found or the budget (default 90 s) is used; the first
+//!   pass always completes (`--budget-s 0` = exactly the pass `run` does).
+//! `c12 replay <json>` re-runs one case (`{"kind":"stress","seed":..,"index":..,"tier":..}`,
+//!   `{"kind":"share","class":..,"seed":..,"index":..,"tier":..}` — up to 8 attempts,
+//!   stops at the first reproduction — or `{"kind":"probe"}`); `c12 dump <source>`
+//!   prints the LIR dump.
 
 use roto::{Context, FileTree, NoCtx, RotoString, Runtime, TypedFunc, Val, library};
 use rotov_harness::driver::{Driver, hex};
